@@ -19,6 +19,18 @@
 //! Sound-first restriction: a handle is only used while its path still names
 //! the inode it was opened on.
 //!
+//! `write_at` (std / tokio `write_at`, io_uring Write with an offset) through a
+//! handle opened for appending is executed through all three front ends: it
+//! must succeed with the byte count, and the file must read either as POSIX
+//! pwrite() (bytes at the offset) or as Linux (bytes at the end) leaves it
+//! (`pwrite_on_append`; the model follows what it sees).
+//!
+//! Sub-check `fshandle` (`run_handles`): the same histories with the host
+//! software routing its I/O through `turmoil_fs::FsHandle` guards -- nested,
+//! overlapping / dropped out of LIFO order, sequential, on the simulation
+//! thread and on worker OS threads -- and the per-host models + scans as the
+//! host-isolation oracle.
+//!
 //! Known findings (F-C10-1 .. F-C10-14, see `probes()` and
 //! known_findings.json) are handled by *avoidance* (the op is not executed when
 //! the model state says it would trigger the defect) or *taint*; both are
@@ -94,9 +106,12 @@ use crate::models::posixfs::{self as pm, is_prefix, parent_of, Ino, MErr, MHandl
 use proptest::prelude::*;
 use serde::{Deserialize, Serialize};
 use serde_json::Value;
+use std::cell::Cell;
 use std::collections::{BTreeMap, BTreeSet};
 use std::io::{self, ErrorKind};
+use std::rc::Rc;
 use std::time::Duration;
+use turmoil_fs::{FsHandle, FsHandleGuard};
 
 pub const PROP: super::Prop = super::Prop {
     id: "C10",
@@ -1084,8 +1099,11 @@ impl<'a> Run<'a> {
             }
             Op::WriteAt { fe, .. } => {
                 let mh = hs.mh[self.cur_slot.unwrap()].as_ref().unwrap();
-                if mh.append {
-                    // Linux pwrite() on O_APPEND ignores the offset, POSIX says it must not
+                if mh.append && self.crash_oracle_on_top() {
+                    // Linux pwrite() on O_APPEND ignores the offset, POSIX says it
+                    // must not: where the bytes land is platform-dependent.  The
+                    // lock-step oracle follows the real side within that set (see
+                    // `pwrite_on_append`); a durable-image oracle on top cannot
                     return Some(("unspecified", "write_at on an append-mode handle"));
                 }
                 if *fe == Fe::Uring && !mh.writable && self.on(K_URING_MODE) {
@@ -1141,6 +1159,17 @@ impl<'a> Run<'a> {
                 }
             }
         }
+        // a data op the known-finding rules are about to taint (see
+        // `on_len_changed`): its effect on the content is not asserted
+        let rule_taints = {
+            let (k1, k3) = (self.on(K_RENAME_DATA), self.on(K_SETLEN_ORDER));
+            let hs = &self.hosts[h];
+            hs.mh[cur]
+                .as_ref()
+                .and_then(|m| hs.facts.get(&m.ino))
+                .map(|f| (f.renamed.is_some() && k1) || (f.shrunk && k3))
+                .unwrap_or(false)
+        };
         let hs = &mut self.hosts[h];
         let data = match step.op.write_len() {
             Some(n) => {
@@ -1151,8 +1180,33 @@ impl<'a> Run<'a> {
         };
         self.cur_data = if self.keep_log { data.clone() } else { Vec::new() };
         let real = hs.real.exec(&step.op, cur, &data);
-        let (model, last) = exec_model(&mut hs.model, &mut hs.mh, &step.op, cur, &data);
+        let on_append = match &step.op {
+            Op::WriteAt { off, .. } => hs.mh[cur].as_ref().filter(|m| m.append && m.writable).map(|_| *off as u64),
+            _ => None,
+        };
+        let mut landing: Option<Result<&'static str, String>> = None;
+        let (model, last) = match on_append {
+            Some(off) => {
+                let (m, l, where_) = pwrite_on_append(hs, cur, off, &data, real.is_ok() && !rule_taints);
+                landing = where_;
+                (m, l)
+            }
+            None => exec_model(&mut hs.model, &mut hs.mh, &step.op, cur, &data),
+        };
         self.last = last;
+        if on_append.is_some() {
+            let fe = step.op.fe().map(|f| f.name()).unwrap_or("-");
+            self.out.label(format!("write_at-on-append-handle:{fe}"));
+            match landing {
+                Some(Ok(l)) => self.out.label(format!("write_at-on-append-handle:{l}")),
+                Some(Err(d)) => {
+                    let ctx = format!("host {h} {:?}", step.op);
+                    self.fail("write_at-on-append-handle:content-neither-at-offset-nor-at-end".to_string(), format!("{ctx}: {d}"));
+                }
+                None => {}
+            }
+        }
+        let hs = &mut self.hosts[h];
         if let Op::Open { slot, .. } = &step.op {
             reconcile_open_backend(hs.real.as_mut(), &mut hs.mh, *slot);
         }
@@ -1759,6 +1813,72 @@ fn clone_err(e: &io::Error) -> io::Error {
     io::Error::new(e.kind(), e.to_string())
 }
 
+/// Model side of a successful-by-POSIX `write_at` (pwrite / io_uring Write
+/// with an explicit offset) through a handle opened for appending.  A handle
+/// opened with `append(true)` is open for writing (std: "append" implies write
+/// access), so through every front end the call must succeed and return the
+/// byte count.  Where the bytes land is platform-dependent: POSIX pwrite()
+/// writes at the given offset, Linux appends whatever the offset is.  Both are
+/// admissible; the model follows the one the real side shows (content of the
+/// file read back through the std shim), anything else is a violation.  The
+/// cursor of the handle does not move in either.  When the content of the inode
+/// is not compared any more (taint) or the call failed on the real side the
+/// POSIX variant is applied (Ok/Err and the count are still compared by the
+/// caller).  Third value: which variant was seen, or the description of a
+/// content that is neither.
+fn pwrite_on_append(
+    hs: &mut HostState,
+    cur: usize,
+    off: u64,
+    data: &[u8],
+    real_ok: bool,
+) -> (Result<Res, MErr>, Last, Option<Result<&'static str, String>>) {
+    let (ino, path) = {
+        let mh = hs.mh[cur].as_ref().expect("model handle");
+        (mh.ino, mh.path.clone())
+    };
+    let old = hs.model.file(ino).clone();
+    let old_len = old.len() as u64;
+    let at = |o: u64| -> Vec<u8> {
+        let mut t = hs.model.clone();
+        t.pwrite(ino, o, data);
+        t.file(ino).clone()
+    };
+    let (posix, linux) = (at(off), at(old_len));
+    let compared = real_ok && !hs.data_taint.contains_key(&ino) && hs.region_tainted(&path).is_none();
+    let mut chosen = off;
+    let mut seen = None;
+    if posix == linux {
+        seen = Some(Ok("offset-is-end-or-empty"));
+    } else if compared {
+        let idx = PATHS.iter().position(|q| *q == path);
+        let real = idx.map(|i| hs.real.scan().swap_remove(i).1);
+        seen = Some(match real {
+            Some(Seen::File { content: Some(c), .. }) if c == posix => Ok("lands-at-offset"),
+            Some(Seen::File { content: Some(c), .. }) if c == linux => {
+                chosen = old_len;
+                Ok("lands-at-end")
+            }
+            other => Err(format!(
+                "path {path}: before {} payload {} offset {off}: at-offset gives {} at-end gives {} but the file reads {other:?}",
+                hex(&old),
+                hex(data),
+                hex(&posix),
+                hex(&linux)
+            )),
+        });
+    }
+    let n = hs.model.pwrite(ino, chosen, data);
+    let last = Last {
+        ino: Some(ino),
+        old_len,
+        new_len: hs.model.file(ino).len() as u64,
+        off: chosen,
+        ..Default::default()
+    };
+    (Ok(Res::Count(n)), last, seen)
+}
+
 fn seen_kind(s: &Seen) -> &'static str {
     match s {
         Seen::Absent => "absent",
@@ -1932,6 +2052,425 @@ pub fn fuzz_sanitize(sc: &mut Scenario) -> bool {
     pre.append(&mut sc.ops);
     sc.ops = pre;
     sc.ops.len() > 2
+}
+
+// ---------------------------------------------------------------------------
+// sub-check `fshandle`: host software that routes its I/O through
+// `turmoil_fs::FsHandle` guards
+//
+// `FsHandle::current()` captures the Fs of the host that is entered,
+// `FsHandle::enter()` makes it the filesystem context of the calling thread
+// "while this guard is held" and "when the guard is dropped, the context is
+// cleared" (rustdoc of FsHandle / FsHandleGuard).  The documented use is a
+// worker OS thread; helper code on the simulation thread may use the same
+// handle (the shims consult the guard's context first).  What C10 promises
+// whatever the software does with such guards: operations on one host never
+// affect another host's tree.  So a history is enriched with guard events and
+// the unchanged per-host model + scans stay the oracle:
+//
+// * `Enter` / `Drop` on the harness thread (the "simulation thread"): up to
+//   three guards alive at once, from a handle captured just now or earlier,
+//   entered and dropped in any order (nested LIFO, overlapping and dropped in
+//   start order, sequential), with ops of the same host before, between and
+//   after them.  Software never keeps a guard over a point where another
+//   host runs (a guard held across such a yield would, by its very contract,
+//   route the other host's I/O to this host's Fs): before an item of another
+//   host the guards still alive are dropped, in a generated order;
+// * `Worker`: one path op executed on a freshly spawned OS thread that has
+//   nothing but the handle (the rustdoc example), under one guard, two
+//   nested guards, or a second guard after a first was dropped.
+//
+// While a guard of host h is alive only h acts, and every possible routing
+// (guard context or the entered Fs) is h's Fs; once no guard is alive the
+// handles must have no effect whatsoever.  Every op result is compared with
+// the host's model as in `histories`, the acting host is scanned while guards
+// are alive, both hosts are scanned whenever none is.
+
+/// Guard slots of the `fshandle` sub-check.
+pub const NGUARDS: usize = 3;
+
+#[derive(Clone, Debug, Serialize, Deserialize)]
+pub enum Item {
+    Step(Step),
+    /// the software of `host` enters a guard into guard slot `g`, from a
+    /// handle captured now (`fresh`) or from the one it captured last
+    Enter { host: u8, g: u8, fresh: bool },
+    /// the `g`-th (modulo) of the guards that are alive, in slot order, is dropped
+    Drop { g: u8 },
+    /// a path op executed on a worker OS thread that only has an `FsHandle`;
+    /// shape 0: one guard, 1: two nested guards, 2: a guard after another was dropped
+    Worker { step: Step, shape: u8 },
+}
+
+#[derive(Clone, Debug, Serialize, Deserialize)]
+pub struct HandleScenario {
+    pub items: Vec<Item>,
+    pub scan_every: u8,
+    /// order in which the guards that are still alive are dropped when the
+    /// software of their host stops running (an item of the other host, the
+    /// end): 0 = LIFO, 1 = start order, 2 = slot order
+    pub forced: u8,
+}
+
+const START: Duration = Duration::from_secs(1_000_000);
+
+/// Ops a worker thread can execute with nothing but an `FsHandle`: path ops
+/// through the std / tokio shim (no open handle, no ring, no clock).
+fn is_path_op(op: &Op) -> bool {
+    op.handle_slot().is_none() && !matches!(op, Op::Open { .. } | Op::Close { .. } | Op::Advance { .. })
+}
+
+/// Run `f` on a freshly spawned OS thread (fresh thread-locals) and wait for
+/// it.  A panic over there is re-raised here with its message, so that the
+/// engine's per-thread panic record sees it.
+fn on_fresh_thread<R: Send>(f: impl FnOnce() -> R + Send) -> R {
+    let joined = std::thread::scope(|s| {
+        s.spawn(move || {
+            crate::engine::take_last_panic();
+            std::panic::catch_unwind(std::panic::AssertUnwindSafe(f))
+                .map_err(|_| crate::engine::take_last_panic().unwrap_or_else(|| "<unknown panic>".into()))
+        })
+        .join()
+    });
+    match joined {
+        Ok(Ok(r)) => r,
+        Ok(Err(msg)) => panic!("{msg}"),
+        Err(p) => std::panic::resume_unwind(p),
+    }
+}
+
+/// [`RealHost`] that executes the next op on a worker OS thread under
+/// `FsHandle` guards when asked to through `req`.
+struct WorkerCapable {
+    inner: RealHost,
+    /// Some(shape): run the next (path) op on a worker thread
+    req: Rc<Cell<Option<u8>>>,
+}
+
+impl WorkerCapable {
+    fn on_worker(&mut self, op: &Op, data: &[u8], shape: u8) -> io::Result<Res> {
+        // software on the host captures the handle ...
+        let handle = {
+            let _g = turmoil_fs::enter(&self.inner.host.fs, turmoil_fs::EnterCtx { now: self.inner.host.now, on_corruption: None });
+            FsHandle::current()
+        };
+        // ... and hands it to a thread that has no other filesystem context
+        let (op, data) = (op.clone(), data.to_vec());
+        on_fresh_thread(move || {
+            if shape == 2 {
+                let _first = handle.enter();
+            }
+            let _outer = handle.enter();
+            let _inner = if shape == 1 { Some(handle.enter()) } else { None };
+            // nothing is entered here: the shims can only route through the guard
+            let mut nowhere = Host::ambient();
+            let mut no_handles: Vec<Option<crate::drivers::fsdirect::Handle>> = (0..NSLOTS).map(|_| None).collect();
+            fshistory::exec_real(&mut nowhere, &mut no_handles, &op, 0, &data)
+        })
+    }
+}
+
+impl RealBackend for WorkerCapable {
+    fn exec(&mut self, op: &Op, cur: usize, data: &[u8]) -> io::Result<Res> {
+        match self.req.take() {
+            Some(shape) if is_path_op(op) => self.on_worker(op, data, shape),
+            _ => self.inner.exec(op, cur, data),
+        }
+    }
+    fn scan(&mut self) -> Vec<(bool, Seen)> {
+        self.inner.scan()
+    }
+    fn has_slot(&self, slot: usize) -> bool {
+        RealBackend::has_slot(&self.inner, slot)
+    }
+    fn close_slot(&mut self, slot: usize) {
+        RealBackend::close_slot(&mut self.inner, slot)
+    }
+    fn seek_slot(&mut self, slot: usize, pos: u64) {
+        RealBackend::seek_slot(&mut self.inner, slot, pos)
+    }
+    fn crash(&mut self) {
+        RealBackend::crash(&mut self.inner)
+    }
+    fn shutdown(&mut self) {
+        RealBackend::shutdown(&mut self.inner)
+    }
+}
+
+struct Alive {
+    host: usize,
+    /// entry order
+    seq: u32,
+    guard: FsHandleGuard,
+}
+
+/// The guards of the `fshandle` interpreter (harness thread).
+struct Guards {
+    alive: Vec<Option<Alive>>,
+    /// the handle each host's software captured last
+    cached: Vec<Option<FsHandle>>,
+    seq: u32,
+    forced: u8,
+    /// hosts that dropped at least one guard
+    dropped: BTreeSet<usize>,
+}
+
+impl Guards {
+    fn any_alive(&self) -> bool {
+        self.alive.iter().any(|a| a.is_some())
+    }
+    /// Drop one guard; labels the shape of the drop.
+    fn drop_slot(&mut self, gi: usize, out: &mut Outcome) {
+        let Some(a) = self.alive[gi].take() else { return };
+        let others: Vec<u32> = self.alive.iter().flatten().map(|o| o.seq).collect();
+        out.label(if others.is_empty() {
+            "guard-drop:none-left"
+        } else if others.iter().all(|s| *s < a.seq) {
+            "guard-drop:innermost-first (LIFO)"
+        } else {
+            "guard-drop:older-guard-before-younger (non-LIFO)"
+        });
+        self.dropped.insert(a.host);
+        drop(a.guard);
+    }
+    /// The software of every host other than `keep` stops running (all
+    /// hosts if `keep` is None): its guards go, in the scenario's order.
+    fn drop_others(&mut self, keep: Option<usize>, out: &mut Outcome) {
+        let mut v: Vec<(usize, u32)> = self
+            .alive
+            .iter()
+            .enumerate()
+            .filter_map(|(i, a)| a.as_ref().filter(|a| Some(a.host) != keep).map(|a| (i, a.seq)))
+            .collect();
+        match self.forced % 3 {
+            0 => v.sort_by_key(|(_, s)| std::cmp::Reverse(*s)),
+            1 => v.sort_by_key(|(_, s)| *s),
+            _ => {}
+        }
+        if v.len() > 1 {
+            out.label(format!("guards-dropped-at-yield:{}", ["LIFO", "start-order", "slot-order"][(self.forced % 3) as usize]));
+        }
+        for (i, _) in v {
+            self.drop_slot(i, out);
+        }
+    }
+}
+
+/// One case of the `fshandle` sub-check.  Runs on a thread of its own: the
+/// guards work through a thread-local, and a case must neither inherit one
+/// from nor leave one to the other cases of the engine's worker thread.
+pub fn run_handles(sc: &HandleScenario) -> Outcome {
+    on_fresh_thread(|| run_handles_here(sc))
+}
+
+fn run_handles_here(sc: &HandleScenario) -> Outcome {
+    let base = Scenario {
+        ops: Vec::new(),
+        scan_every: sc.scan_every,
+        strict: 0,
+        probe: None,
+    };
+    let req: Rc<Cell<Option<u8>>> = Rc::new(Cell::new(None));
+    let mut fss = Vec::new();
+    let mut hosts = Vec::new();
+    for seed in [1u64, 2] {
+        let host = Host::new(seed, START);
+        fss.push(host.fs.clone());
+        hosts.push(HostState::with_backend(Box::new(WorkerCapable { inner: RealHost::new(host), req: req.clone() })));
+    }
+    let mut now = vec![START; 2];
+    let mut r = Run::new(&base, hosts);
+    let mut g = Guards {
+        alive: (0..NGUARDS).map(|_| None).collect(),
+        cached: vec![None, None],
+        seq: 0,
+        forced: sc.forced,
+        dropped: BTreeSet::new(),
+    };
+    let every = sc.scan_every.max(1) as u32;
+    let mut cross = false;
+    let mut worker_ops = 0u32;
+    for (idx, item) in sc.items.iter().enumerate() {
+        match item {
+            Item::Enter { host, g: slot, fresh } => {
+                let (h, gi) = (*host as usize % 2, *slot as usize % NGUARDS);
+                if g.alive[gi].is_some() {
+                    r.out.count("skipped: guard slot occupied", 1);
+                    continue;
+                }
+                g.drop_others(Some(h), &mut r.out);
+                if *fresh || g.cached[h].is_none() {
+                    // FsHandle::current() needs the host to be entered (its software runs)
+                    let _e = turmoil_fs::enter(&fss[h], turmoil_fs::EnterCtx { now: now[h], on_corruption: None });
+                    g.cached[h] = Some(FsHandle::current());
+                } else {
+                    r.out.label("guard-from-handle-captured-earlier");
+                }
+                let older = g.alive.iter().flatten().count();
+                r.out.label(match older {
+                    0 if g.dropped.contains(&h) => "guard-enter:after-earlier-guards-were-dropped (sequential)",
+                    0 => "guard-enter:first",
+                    1 => "guard-enter:while-one-guard-alive",
+                    _ => "guard-enter:while-two-guards-alive",
+                });
+                g.seq += 1;
+                let guard = g.cached[h].as_ref().unwrap().enter();
+                g.alive[gi] = Some(Alive { host: h, seq: g.seq, guard });
+                r.out.count("guard enter", 1);
+            }
+            Item::Drop { g: slot } => {
+                // addresses the k-th guard that is alive (in slot order)
+                let live: Vec<usize> = (0..NGUARDS).filter(|i| g.alive[*i].is_some()).collect();
+                if live.is_empty() {
+                    r.out.count("skipped: no guard alive", 1);
+                    continue;
+                }
+                let gi = live[*slot as usize % live.len()];
+                g.drop_slot(gi, &mut r.out);
+                r.out.count("guard drop", 1);
+            }
+            Item::Step(step) | Item::Worker { step, .. } => {
+                let h = (step.host as usize) % 2;
+                g.drop_others(Some(h), &mut r.out);
+                let under = g.alive.iter().flatten().count();
+                if let Item::Worker { shape, .. } = item {
+                    if is_path_op(&step.op) {
+                        req.set(Some(*shape % 3));
+                    }
+                }
+                let executed = r.step(idx, step);
+                let on_worker = matches!(item, Item::Worker { .. }) && is_path_op(&step.op) && req.take().is_none();
+                req.set(None);
+                if r.out.failure.is_some() {
+                    break;
+                }
+                if !executed {
+                    continue;
+                }
+                r.ops_done += 1;
+                if let Op::Advance { ms } = &step.op {
+                    now[h] += Duration::from_millis(*ms as u64);
+                }
+                r.out.count(format!("op {}", step.op.name()), 1);
+                if on_worker {
+                    worker_ops += 1;
+                    r.out.count("op on a worker thread under FsHandle guards", 1);
+                    r.out.label(format!(
+                        "worker-thread-op:{}",
+                        match item {
+                            Item::Worker { shape, .. } => ["one-guard", "two-nested-guards", "guard-after-dropped-guard"][(*shape % 3) as usize],
+                            _ => "",
+                        }
+                    ));
+                }
+                if under > 0 {
+                    r.out.label(format!("op-under-{under}-guard(s)"));
+                } else if !g.dropped.is_empty() {
+                    r.out.label("op-of-same-or-other-host-after-all-guards-dropped");
+                }
+                if g.dropped.iter().any(|d| *d != h) {
+                    cross = true;
+                }
+                if r.ops_done % every == 0 {
+                    let ctx = format!("after item #{idx} {:?}", step.op);
+                    if g.any_alive() {
+                        // the other host does not run while guards are held
+                        r.scan_host(h, step.op.name(), &ctx);
+                    } else {
+                        r.scan_all(h, step.op.name(), &ctx);
+                    }
+                    if r.out.failure.is_some() {
+                        break;
+                    }
+                }
+            }
+        }
+    }
+    // the software stops: whatever is alive goes, then nothing of it may be left
+    g.drop_others(None, &mut r.out);
+    if r.out.failure.is_none() {
+        r.scan_all(0, "end", "final scan");
+    }
+    if r.out.failure.is_none() && !g.dropped.is_empty() {
+        // "When dropped, clears the thread-local context": with no guard alive
+        // a filesystem that is entered now is the one the shims see -- a
+        // brand-new, empty one here
+        let fresh = std::sync::Arc::new(std::sync::Mutex::new(turmoil_fs::Fs::new(turmoil_fs::FsConfig::default(), 3)));
+        let _e = turmoil_fs::enter(&fresh, turmoil_fs::EnterCtx { now: START, on_corruption: None });
+        let seen: Vec<&str> = PATHS.iter().skip(1).filter(|p| turmoil_fs::shim::std::fs::exists(p)).copied().collect();
+        if !seen.is_empty() {
+            r.out.fail(
+                "fshandle:context-left-after-all-guards-dropped",
+                format!("every FsHandle guard is dropped, a new empty Fs is entered, yet exists() is true for {seen:?}: the shims still route to the Fs of a dropped guard"),
+            );
+        }
+    }
+    for hs in r.hosts.iter_mut() {
+        hs.real.shutdown();
+    }
+    drop(g);
+    if cross {
+        r.out.label("nt:op-of-a-host-after-guards-of-the-other-host");
+    }
+    if worker_ops > 0 {
+        r.out.label("nt:op-on-worker-thread");
+    }
+    r.out.nontrivial = cross || worker_ops > 0;
+    r.out.count("ops executed", r.ops_done as u64);
+    r.out
+}
+
+fn worker_step_strategy() -> impl Strategy<Value = Step> {
+    use fshistory::{any_path, dir_path, existing_file, fe_strategy, file_path, new_dir_path, rename_target};
+    let op = prop_oneof![
+        4 => (file_path(), 0u8..9, fe_strategy()).prop_map(|(path, len, fe)| Op::WriteFile { path, len, fe }),
+        3 => (existing_file(), fe_strategy()).prop_map(|(path, fe)| Op::ReadFile { path, fe }),
+        2 => (existing_file(), rename_target(), fe_strategy()).prop_map(|(from, to, fe)| Op::Rename { from, to, fe }),
+        2 => (existing_file(), fe_strategy()).prop_map(|(path, fe)| Op::RemoveFile { path, fe }),
+        2 => (new_dir_path(), fe_strategy()).prop_map(|(path, fe)| Op::CreateDir { path, fe }),
+        1 => (new_dir_path(), fe_strategy()).prop_map(|(path, fe)| Op::CreateDirAll { path, fe }),
+        1 => (dir_path(), fe_strategy()).prop_map(|(path, fe)| Op::RemoveDir { path, fe }),
+        2 => (dir_path(), fe_strategy()).prop_map(|(path, fe)| Op::ReadDir { path, fe }),
+        1 => (dir_path(), fe_strategy()).prop_map(|(path, fe)| Op::SyncDir { path, fe }),
+        1 => (any_path(), fe_strategy()).prop_map(|(path, fe)| Op::Metadata { path, fe }),
+        1 => (any_path(), fe_strategy()).prop_map(|(path, fe)| Op::Exists { path, fe }),
+    ];
+    (prop_oneof![3 => Just(0u8), 2 => Just(1u8)], op).prop_map(|(host, op)| Step { host, op })
+}
+
+pub fn handle_strategy() -> BoxedStrategy<HandleScenario> {
+    let host = prop_oneof![3 => Just(0u8), 2 => Just(1u8)];
+    let item = prop_oneof![
+        12 => step_strategy().prop_map(Item::Step),
+        // the other host gets its share of ops (step_strategy: 20 %)
+        3 => step_strategy().prop_map(|mut s| {
+            s.host = 1;
+            Item::Step(s)
+        }),
+        5 => (host, 0u8..NGUARDS as u8, any::<bool>()).prop_map(|(host, g, fresh)| Item::Enter { host, g, fresh }),
+        4 => (0u8..NGUARDS as u8).prop_map(|g| Item::Drop { g }),
+        2 => (worker_step_strategy(), 0u8..3).prop_map(|(step, shape)| Item::Worker { step, shape }),
+    ];
+    (
+        any::<bool>(),
+        proptest::collection::vec(item, 4..36),
+        prop_oneof![3 => Just(1u8), 1 => Just(3u8)],
+        0u8..3,
+    )
+        .prop_map(|(pro1, mut items, scan_every, forced)| {
+            let mut pre = Vec::new();
+            for (host, on) in [(0u8, true), (1u8, pro1)] {
+                if on {
+                    pre.push(Step { host, op: Op::CreateDirAll { path: 3, fe: Fe::Std } });
+                    pre.push(Step { host, op: Op::CreateDir { path: 2, fe: Fe::Tokio } });
+                    pre.push(Step { host, op: Op::Open { slot: 0, path: 4, fe: Fe::Std, fl: RW_CREATE } });
+                }
+            }
+            let mut all: Vec<Item> = pre.into_iter().map(Item::Step).collect();
+            all.append(&mut items);
+            HandleScenario { items: all, scan_every, forced }
+        })
+        .boxed()
 }
 
 // ---------------------------------------------------------------------------
@@ -2340,12 +2879,15 @@ fn check(tier: Tier, seed: u64) -> i32 {
         &move || strategy_with(strict),
         &run,
     );
+    ctx.random("fshandle", tier.pick(16_000, 260_000), &|| handle_strategy(), &run_handles);
     ctx.finish(
-        "random histories of <= 47 ops (13-path ancestor-closed universe /, /d0, /d1, /d2, /d0/s and 8 file names, any path may become a file or a directory; two hosts = two independent Fs instances with identical path names) mixing the std shim, the tokio shim and io_uring (one SQE per op) on the same tree, with sync_all/sync_data/sync_dir and clock advances at arbitrary positions; lock-step POSIX inode-tree model (validated against the Linux filesystem with the same interpreter); result of every op compared, full scan of both hosts every 1/3/8 ops and at the end, real-vs-real scan around every sync op and clock advance. Non-trivial = the history contains a sync (sync_all/sync_data of the file, sync_dir of the directory or of an ancestor) between two successful mutations of the same untainted object, or a name vacated by rename/remove that is used again (create / rename-to / mkdir) while untainted. Distinct by scenario hash. Plus fixed probe histories (sub `probe`), one per known root cause / (op, situation).",
+        "random histories of <= 47 ops (13-path ancestor-closed universe /, /d0, /d1, /d2, /d0/s and 8 file names, any path may become a file or a directory; two hosts = two independent Fs instances with identical path names) mixing the std shim, the tokio shim and io_uring (one SQE per op) on the same tree, with sync_all/sync_data/sync_dir and clock advances at arbitrary positions; lock-step POSIX inode-tree model (validated against the Linux filesystem with the same interpreter); result of every op compared, full scan of both hosts every 1/3/8 ops and at the end, real-vs-real scan around every sync op and clock advance. Non-trivial = the history contains a sync (sync_all/sync_data of the file, sync_dir of the directory or of an ancestor) between two successful mutations of the same untainted object, or a name vacated by rename/remove that is used again (create / rename-to / mkdir) while untainted. Distinct by scenario hash. Plus fixed probe histories (sub `probe`), one per known root cause / (op, situation). Sub `fshandle`: histories of <= 41 items over the same op language in which the host software routes its I/O through turmoil_fs::FsHandle guards: Enter / Drop events of up to 3 guards per host on the harness (simulation) thread, from a handle captured just now or earlier, nested (dropped LIFO), overlapping and dropped in start order or any other order, sequential, with ops of the same host before, between, under and after them; guards still alive when the other host acts are dropped first, in a generated order (LIFO / start order / slot order); and path ops executed on a freshly spawned worker OS thread that has nothing but the handle (one guard | two nested guards | a guard after a dropped one). Same lock-step oracle per op, scan of the acting host while guards are alive and of both hosts whenever none is, plus at the end: with every guard dropped a brand-new empty Fs that is entered must be what the shims see. Non-trivial there = an op of a host executed after the other host dropped a guard, or an op executed on a worker thread.",
         &[
             "all fault probabilities 0, io_latency None, no capacity limit, no page cache, no crash",
             "a handle is only used while its path still names the inode it was opened on (POSIX handle-follows-inode after rename/unlink is not asserted)",
-            "read-only open of a directory, write_at on an append-mode handle, rename/remove of / are not generated (platform-dependent)",
+            "read-only open of a directory, rename/remove of / are not generated (platform-dependent)",
+            "write_at (pwrite / io_uring Write with an explicit offset) through a handle opened with append(true), with or without write(true): the handle is open for writing, so through every front end the call must succeed and return the byte count; where the bytes land is platform-dependent (POSIX: at the offset, Linux: at the end) -- the file must then read as one of the two (checked by reading it back) and the model follows the one seen; the cursor moves in neither",
+            "sub fshandle: software never holds an FsHandle guard while another host runs (a guard held across a yield would by its contract route the other host's I/O to this host's Fs): guards of a host are dropped before an item of the other host; worker threads execute path ops only (std / tokio shim; no open handles, no ring)",
             "error kinds are compared where std's errno mapping is unambiguous (NotFound, AlreadyExists, NotADirectory, IsADirectory, DirectoryNotEmpty, InvalidInput); EBADF/EPERM-like situations only require Ok/Err agreement",
             "timestamps, permission bits, symlinks, hard links are outside the property",
             "objects touched by findings F-C10-1..14 are avoided or tainted only while the finding has status \"known\" in known_findings.json (counted in excluded_by_known_finding); while F-C10-4 is known, directory renames other than into the own subtree are not executed in the random tier",
@@ -2373,6 +2915,9 @@ fn run_survey(sc: &Scenario) -> Outcome {
     o
 }
 
-fn replay(_sub: &str, v: &Value) -> Result<Outcome, String> {
+fn replay(sub: &str, v: &Value) -> Result<Outcome, String> {
+    if sub == "fshandle" {
+        return replay_as::<HandleScenario>(v, &run_handles);
+    }
     replay_as::<Scenario>(v, &run)
 }
